@@ -38,6 +38,8 @@ Inductive vx :=
 Inductive vstmt :=
 | VLet (x : string) (e : vx)
 | VLetTuple (xs : list string) (e : vx)
+| VIf (c : vx) (t : list vstmt)            (* if c { t }  — no else; t only rebinds variables that already exist *)
+| VRepeat (n : nat) (b : list vstmt)       (* for _ in 0..n { b } *)
 | VUnsupported (s : string).
 
 Record vfn := { vf_params : list string; vf_body : list vstmt; vf_ret : vx }.
@@ -64,17 +66,39 @@ Section Interp.
     | Some d =>
         match vbind (vf_params d) vs with
         | Some env0 =>
-            do env1 <- (fix block (b : list vstmt) (env : venv) : res venv :=
+            do env1 <- (fix block (b : list vstmt) (env : venv) {struct b} : res venv :=
                           match b with
                           | [] => Ok env
-                          | VLet x e1 :: b' => do v <- ev env e1 ;; block b' ((x, v) :: env)
-                          | VLetTuple xs e1 :: b' =>
-                              do v <- ev env e1 ;;
-                              match v with
-                              | XT l => match vbind xs l with Some bs => block b' (bs ++ env) | None => Fault end
-                              | _ => Fault
-                              end
-                          | VUnsupported _ :: _ => Fault
+                          | s :: b' =>
+                              do env' <- (fix stmt (s : vstmt) (env : venv) {struct s} : res venv :=
+                                            match s with
+                                            | VLet x e1 => do v <- ev env e1 ;; Ok ((x, v) :: env)
+                                            | VLetTuple xs e1 =>
+                                                do v <- ev env e1 ;;
+                                                match v with
+                                                | XT l => match vbind xs l with Some bs => Ok (bs ++ env) | None => Fault end
+                                                | _ => Fault
+                                                end
+                                            | VIf c t =>
+                                                do v <- ev env c ;;
+                                                match v with
+                                                | XN 0 => Ok env
+                                                | XN 1 => (fix blk (l : list vstmt) (env : venv) {struct l} : res venv :=
+                                                             match l with [] => Ok env | a :: l' => do e1 <- stmt a env ;; blk l' e1 end) t env
+                                                | _ => Fault
+                                                end
+                                            | VRepeat k t =>
+                                                (fix rep (k : nat) (env : venv) {struct k} : res venv :=
+                                                   match k with
+                                                   | O => Ok env
+                                                   | S k' =>
+                                                       do e1 <- (fix blk (l : list vstmt) (env : venv) {struct l} : res venv :=
+                                                                   match l with [] => Ok env | a :: l' => do e1 <- stmt a env ;; blk l' e1 end) t env ;;
+                                                       rep k' e1
+                                                   end) k env
+                                            | VUnsupported _ => Fault
+                                            end) s env ;;
+                              block b' env'
                           end) (vf_body d) env0 ;;
             ev env1 (vf_ret d)
         | None => Fault
